@@ -22,6 +22,7 @@ def check(ctx, run):
     numcodec.r18_4(ctx, run, rule='R04.3/R18.4')
     dispatch.r11_1(ctx, run, rule='R04.4/R11.1', only={'functions::compare'})
     dispatch.r11_3(ctx, run, rule='R04.4/R11.3', only={'functions::compare'})
+    dispatch.r11_7(ctx, run, rule='R04.4/R11.7', only={'functions::compare'})
     only = lambda p: p.startswith('functions::compare')
     walkers.w_init(ctx, run, 'R04.5/R05.1', only=only, floor=4)
     walkers.w_advance(ctx, run, 'R04.5/R05.2', only=only, floor=4)
